@@ -393,3 +393,22 @@ CORPUS += [
     V("C11", "evaluate-ignores-action", DECP, '        """The action is provided externally, so we just return the action"""\n        selected = action', '        """The action is provided externally, so we just return the action"""\n        selected = logprobs.argmax(-1)', "C11.c"),
     V("C11", "eq-rename-selected", DECP, "selected_action", "chosen", None, count=99),
 ]
+
+OPSF = "rl4co/utils/ops.py"
+CORPUS += [
+    # ---------------------------------------------------------------- C12
+    V("C12", "batchify-b-major", OPSF, "return x.expand(repeats, *s).contiguous().view(s[0] * repeats, *s[1:])", "return x.unsqueeze(1).expand(s[0], repeats, *s[1:]).contiguous().view(s[0] * repeats, *s[1:])", "C12.a"),
+    V("C12", "unbatchify-view-swapped", OPSF, "return x.view(repeats, s[0] // repeats, *s[1:]).permute(1, 0, *range(2, len(s) + 1))", "return x.view(s[0] // repeats, repeats, *s[1:])", "C12.a"),
+    V("C12", "unbatchify-loop-not-reversed", OPSF, "    for s in reversed(\n        shape\n    ):  # we need to reverse the shape to unbatchify in the right order", "    for s in shape:", "C12.a"),
+    V("C12", "start-nodes-repeat", OPSF, "            torch.arange(num_starts, device=td.device).repeat_interleave(td.shape[0])\n            % num_loc\n            + 1", "            torch.arange(num_starts, device=td.device).repeat(td.shape[0])\n            % num_loc\n            + 1", "C12.a"),
+    V("C12", "op-resample-pattern-b-major", OPSF, '                selected = rearrange(selected, "b n -> (n b)")', '                selected = rearrange(selected, "b n -> (b n)")', "C12.a"),
+    V("C12", "am-decoder-logits-b-major", "rl4co/models/zoo/am/decoder.py", 'logits = rearrange(logits, "b s l -> (s b) l", s=num_starts)', 'logits = rearrange(logits, "b s l -> (b s) l", s=num_starts)', "C12.a"),
+    V("C12", "symnco-invariance-b-major-again", "rl4co/models/zoo/symnco/losses.py", '"(a b) ... -> b a ..."', '"(b a) ... -> b a ..."', "C12.a"),
+    V("C12", "select-best-other-factor", DECP, "        logprobs = unbatchify_and_gather(logprobs, max_idxs, self.num_starts)", "        logprobs = unbatchify_and_gather(logprobs, max_idxs, max_idxs.shape[0])", "C12"),
+    V("C12", "pomo-ll-other-tuple", "rl4co/models/zoo/pomo/model.py", 'log_likelihood = unbatchify(out["log_likelihood"], (n_aug, n_start))', 'log_likelihood = unbatchify(out["log_likelihood"], (n_start, n_aug))', "C12.b"),
+    V("C12", "eval-aug-gather-axis", "rl4co/tasks/eval.py", "        rewards = unbatchify(rewards, num_augment)\n        actions = unbatchify(out[\"actions\"], num_augment)\n\n        # Get best reward and corresponding action\n        rewards, max_idxs = rewards.max(dim=1)\n        actions = gather_by_index(actions, max_idxs, dim=1)", "        rewards = unbatchify(rewards, num_augment)\n        actions = unbatchify(out[\"actions\"], num_augment)\n\n        # Get best reward and corresponding action\n        rewards, max_idxs = rewards.max(dim=1)\n        actions = gather_by_index(actions, max_idxs, dim=2)", "C12.c"),
+    V("C12", "eval-multistart-factor-mismatch", "rl4co/tasks/eval.py", "        rewards = unbatchify(rewards, self.num_starts * num_augment)", "        rewards = unbatchify(rewards, self.num_starts)", "C12.b"),
+    V("C12", "smtwtp-not-counted-again", OPSF, '"pctsp", "spctsp", "smtwtp"]', '"pctsp", "spctsp"]', "C12.d"),
+    V("C12", "pdp-start-includes-deliveries", "rl4co/envs/routing/pdp/env.py", "            % num_possible_starts\n            + 1", "            % (2 * num_possible_starts)\n            + 1", "C12.d"),
+    V("C12", "eq-ops-rename", OPSF, "selected", "picked", None, count=99),
+]
